@@ -270,6 +270,11 @@ func (l c12) Exec(env *core.Env) *core.Result {
 						outcome, verr = v.Verify(ctx, ociDesc, sig, notation.VerifierVerifyOptions{ArtifactReference: "registry.example/repo@" + ociDesc.Digest.String(), SignatureMediaType: format})
 					case 1:
 						outcome, verr = v.VerifyBlob(ctx, func(alg digest.Algorithm) (ocispec.Descriptor, error) {
+							if seed%5 == 1 {
+								// the blob cannot be read to the end: the descriptor generator fails
+								res.Probe("blob_descriptor_generator_failed")
+								return ocispec.Descriptor{}, errors.New("simulated: blob stream failed")
+							}
 							return world.BlobDesc(alg, blob, "text/plain"), nil
 						}, sig, notation.BlobVerifierVerifyOptions{SignatureMediaType: format, TrustPolicyName: policyName})
 					case 2:
